@@ -61,7 +61,7 @@ def extract():
         v = _find_assign(_parse("modelx/serialize/__init__.py"), "DEFAULT_MAX_BACKUPS")
         t["defaultMaxBackups"] = int(ast.literal_eval(v))
     except Exception as e:
-        problems.append("DEFAULT_MAX_BACKUPS not found in serialize/__init__.py: %r" % e)
+        problems.append((["defaultMaxBackups"], "DEFAULT_MAX_BACKUPS not found in serialize/__init__.py: %r" % e))
         t["defaultMaxBackups"] = 0
 
     # system.py: CallStack.default_maxdepth for this interpreter (>= 3.12 branch)
@@ -77,14 +77,16 @@ def extract():
             raise ValueError("pattern")
         t["defaultMaxdepth"] = val
     except Exception as e:
-        problems.append("CallStack.default_maxdepth not found: %r" % e)
+        problems.append((["defaultMaxdepth"], "CallStack.default_maxdepth not found: %r" % e))
         t["defaultMaxdepth"] = 0
 
     # serialize/serializer_6.py: selector class orders, tags, reader phases (C04)
     try:
         t.update(_serializer_tables(_parse("modelx/serialize/serializer_6.py")))
     except Exception as e:
-        problems.append("serializer_6.py selector tables not found: %r" % e)
+        problems.append((["encoderClasses", "decoderClasses", "parserClasses", "literalTypes", "unconditionalClasses",
+                          "instructionMethods", "atParseMethods", "encoderTags", "decoderTags", "readerPhases"],
+                         "serializer_6.py selector tables not found: %r" % e))
         for k in ("encoderClasses", "decoderClasses", "parserClasses", "literalTypes", "unconditionalClasses",
                   "instructionMethods", "atParseMethods"):
             t.setdefault(k, [])
@@ -96,7 +98,8 @@ def extract():
     try:
         t.update(_namespace_tables(_parse("modelx/core/space.py")))
     except Exception as e:
-        problems.append("space.py namespace chain orders not found: %r" % e)
+        problems.append((["namespaceOrder", "userRefsOrder", "dynRefsOrder"],
+                         "space.py namespace chain orders not found: %r" % e))
         for k in ("namespaceOrder", "userRefsOrder", "dynRefsOrder"):
             t.setdefault(k, [])
 
@@ -111,12 +114,13 @@ def extract():
         try:
             t[key] = fn()
         except Exception as e:
-            problems.append("%s: pattern not found: %r" % (key, e))
+            problems.append(([key], "%s: pattern not found: %r" % (key, e)))
             t[key] = dflt
     try:
         t.update(_export_ref_value())
     except Exception as e:
-        problems.append("exportRefValue: pattern not found: %r" % e)
+        problems.append((["exportRefValueOrder", "exportLiteralTypes", "exportLiteralTest"],
+                         "exportRefValue: pattern not found: %r" % e))
         t.update({"exportRefValueOrder": [], "exportLiteralTypes": [], "exportLiteralTest": "unknown"})
 
     return t, problems
@@ -290,6 +294,12 @@ def _export_ref_value():
             order.append("interface")
         elif src in ("any((type(value) is t for t in literal_types))", "type(value) in literal_types"):
             test = "exact"
+            order.append("literal")
+        elif src in ("any((type(value) is t for t in literal_types)) and (not (type(value) is float and "
+                     "(not math.isfinite(value))))",
+                     "type(value) in literal_types and (not (type(value) is float and (not math.isfinite(value))))"):
+            # since fix 3bae90c: nan, inf and -inf (their repr is a name) are left to the pickle branch
+            test = "exact-finite"
             order.append("literal")
         elif src in ("isinstance(value, literal_types)", "isinstance(value, tuple(literal_types))",
                      "any((isinstance(value, t) for t in literal_types))"):
@@ -563,6 +573,52 @@ def render(t):
     return "\n".join(lines)
 
 
+_DRIVER_FILES = {"registry": "Registry", "exec": "Exec", "items": "ItemSpace", "relative": "Relative",
+                 "export": "Export", "codec": "Codec", "iospec": "IOSpec", "capture": "Capture",
+                 "backup": "Backup", "calcsteps": "CalcSteps", "struct": "Struct", "smech": "SMech"}
+
+
+def _import_closure(start_files):
+    """transitive `import MxModel.…` / `import Driver.…` closure of Lean files (paths relative to lean/)"""
+    import re
+    seen, todo = set(), list(start_files)
+    while todo:
+        f = todo.pop()
+        if f in seen:
+            continue
+        path = os.path.join(core.LEAN_DIR, f)
+        if not os.path.exists(path):
+            continue
+        seen.add(f)
+        for m in re.finditer(r"^import\s+((?:MxModel|Driver)[\w.]*)", open(path).read(), re.M):
+            todo.append(m.group(1).replace(".", "/") + ".lean")
+    return seen
+
+
+def keys_used_by(prop, layers):
+    """the table names that the property's theorems (transitively) and the driver layers its check
+    talked to refer to - a table whose extraction failed matters to a property only if it is among them"""
+    import re
+    files = _import_closure(["MxModel/Props/%s.lean" % prop] +
+                            ["Driver/%s.lean" % _DRIVER_FILES[l] for l in layers if l in _DRIVER_FILES])
+    unknown = [l for l in layers if l not in _DRIVER_FILES]
+    words = set()
+    for f in files:
+        if f.endswith("Generated/Tables.lean"):
+            continue
+        words.update(re.findall(r"[A-Za-z_][A-Za-z0-9_']*", open(os.path.join(core.LEAN_DIR, f)).read()))
+    return words, unknown
+
+
+def problems_for(prop, layers):
+    """-> (problems that concern `prop`, problems elsewhere)"""
+    words, unknown = keys_used_by(prop, layers)
+    mine, other = [], []
+    for keys, msg in _summary.get("raw_problems", []):
+        (mine if (unknown or any(k in words for k in keys)) else other).append("table extraction: " + msg)
+    return mine, other
+
+
 def regenerate():
     global _summary
     t, problems = extract()
@@ -572,9 +628,10 @@ def regenerate():
         os.makedirs(os.path.dirname(OUT), exist_ok=True)
         open(OUT, "w").write(text)
     _summary = {k: (v if not isinstance(v, list) else len(v)) for k, v in t.items()}
-    _summary["problems"] = problems
+    _summary["problems"] = [m for _, m in problems]
+    _summary["raw_problems"] = problems
     _summary["differs_from_baseline"] = not is_pristine()
-    return ["table extraction: " + p for p in problems]
+    return ["table extraction: " + m for _, m in problems]
 
 
 def is_pristine():
